@@ -21,8 +21,9 @@ LEVEL_NOTE = ('Sampling of programs and edit histories, not exhaustive. Observab
               '(intrinsic-procedure cache entries ignored); aliasing that never reaches either is not seen. Edits use public '
               'API only (attribute setters, Section.append/prepend, Transformer / SubstituteExpressions with and without '
               'inplace, symbol-table updates, rescope_symbols, two utility transformations).')
-RULE = ('Case = one FP-parsed source (55 % fgenlab modules with kernel/helpers/internal procedures/derived type, 35 % hostilegen '
-        'files with typedefs, bindings, interfaces, imports, 10 % repository sources), 2 rounds: pick a target (Sourcefile, Module, '
+RULE = ('Case = one FP-parsed source (50 % fgenlab modules with kernel/helpers/internal procedures, 42 % hostilegen files with '
+        'imports, generics, internal procedures, 8 % repository sources; derived types and INTERFACE blocks only in 12 % slices '
+        'each because of known findings), up to 2 rounds: pick a target (Sourcefile, Module, '
         'module procedure, free or internal routine), clone it, check equality/scoping/links, then apply 6 (quick) / 12 (thorough) '
         'random edits to either copy (rename unit, rename variable, re-type via symbol table or variable, append/prepend/remove/'
         'replace body nodes with and without inplace, add/remove variables, typedef edits, contained-routine edits, import/spec '
